@@ -231,6 +231,10 @@ def panic_sites(prog, chk, reach):
             w = D.search_offset_guard(body, s.bb, s.term, s.kind)
             if w:
                 why = ("D3 " if s.kind == "split_at" else "D4 ") + w
+        if why is None and s.kind == "split_at":
+            w = D.len_fraction_guard(body, s.bb, s.term)
+            if w:
+                why = "D2 " + w
         if why is None and s.kind == "index" and "str" not in s.detail.split(" as ")[0]:
             w = D.position_index_guard(body, s.bb, s.term)
             if w:
@@ -250,8 +254,11 @@ def panic_sites(prog, chk, reach):
                     if e2 is not None and e2["used"] < e2["count"]:
                         ent = e2
                         break
-            if ent is not None and ent["used"] < ent["count"]:
-                ent["used"] += 1
+            if ent is not None and (s.line in ent.setdefault("lines", set()) or ent["used"] < ent["count"]):
+                # counted per source line: one helper line spliced in at four call sites is one place, not four
+                if s.line not in ent["lines"]:
+                    ent["lines"].add(s.line)
+                    ent["used"] += 1
                 why = "D6 reviewed: " + ent["reason"]
                 by = "table"
         if why is not None:
